@@ -72,7 +72,7 @@ func newEffectAnalysis(V *Verifier) *effectAnalysis {
 }
 
 func inRepo(V *Verifier, f *ssa.Function) bool {
-	return f != nil && f.Pkg != nil && (f.Pkg == V.P.Bexpr || f.Pkg == V.P.Grammar) && len(f.Blocks) > 0
+	return f != nil && V.P.repoPkg(f) != nil && len(f.Blocks) > 0
 }
 
 // roots: the classes of memory an SSA value may point into.
@@ -343,6 +343,21 @@ func (a *effectAnalysis) scan(f *ssa.Function) bool {
 									if a.add(f, writeEffect{root: rc, what: "mutated by " + key, pos: in.Pos(), via: funcKey(f)}) {
 										changed = true
 									}
+								}
+							}
+						}
+					} else if c := a.V.CS.ByKey[key]; c == nil || !c.External {
+						// an external function nobody has stated anything about: it may
+						// write through whatever pointer-like arguments it is handed
+						// (A-EXT-PURE covers only the functions that have an external
+						// contract in spec/*.spec)
+						for _, av := range args {
+							if !pointerLike(av.Type()) {
+								continue
+							}
+							for _, rc := range a.roots(f, av, map[ssa.Value]bool{}) {
+								if a.add(f, writeEffect{root: rc, what: "passed to external function without contract " + key, pos: in.Pos(), via: funcKey(f)}) {
+									changed = true
 								}
 							}
 						}
